@@ -21,6 +21,7 @@ type c18Layer struct {
 	D string // "-" absent, "f" file, "d" dir
 	X string // under D=="d": "-" or "f"
 	Y string
+	W string // "f": a sibling directory d-z with a file x (sorts before "d/" as a string, after "d" as a directory name)
 	E string // "-" absent, "d" empty dir, "f" file
 }
 
@@ -33,6 +34,9 @@ var c18Layers = func() []c18Layer {
 			for _, x := range []string{"-", "f"} {
 				for _, y := range []string{"-", "f"} {
 					out = append(out, c18Layer{A: a, D: "d", X: x, Y: y, E: e})
+					if x == "f" && y == "-" {
+						out = append(out, c18Layer{A: a, D: "d", X: x, Y: y, W: "f", E: e})
+					}
 				}
 			}
 		}
@@ -72,6 +76,10 @@ func (l c18Layer) build(pos int) fstest.MapFS {
 		if l.Y == "f" {
 			file("d/y")
 		}
+		if l.W == "f" {
+			dir("d-z")
+			file("d-z/x")
+		}
 	}
 	switch l.E {
 	case "f":
@@ -88,8 +96,8 @@ type c18Case struct {
 
 func (c *c18Case) Key() string { return core.KeyOf(c) }
 
-var c18Paths = []string{"a", "d", "d/x", "d/y", "e", "zz", "d/zz", "e/zz"}
-var c18Dirs = []string{".", "d", "e", "zz"}
+var c18Paths = []string{"a", "d", "d/x", "d/y", "e", "zz", "d/zz", "e/zz", "d-z/x", "d-z"}
+var c18Dirs = []string{".", "d", "e", "zz", "d-z"}
 var c18Globs = []string{"*", "d/*", "*/x", "?", "*/*", "["}
 
 type c18Model struct {
@@ -362,10 +370,14 @@ func (m *c18Model) readDir(d string) (list []string, ok bool, zone bool) {
 	if !any {
 		return nil, false, false
 	}
-	for n, t := range seen {
-		list = append(list, n+":"+t)
+	var ns []string
+	for n := range seen {
+		ns = append(ns, n)
 	}
-	sort.Strings(list)
+	sort.Strings(ns) // by name (not by "name:type": '-' sorts before ':')
+	for _, n := range ns {
+		list = append(list, n+":"+seen[n])
+	}
 	return list, true, false
 }
 
@@ -419,12 +431,12 @@ func init() {
 	core.Register(&core.Check{
 		ID:    "C18",
 		Level: "exploration",
-		Rule: "every stack of <=3 layers (nil layers in any position) over a layer table in which each of a, d, d/x, d/y, e is absent / file / (empty) directory; " +
-			"per stack: ReadFile+Stat on 8 paths, ReadDir on 4 directories, 6 glob patterns, one WalkDir; compared with a reference union model. " +
+		Rule: "every stack of <=3 layers (nil layers in any position) over a layer table in which each of a, d, d/x, d/y, e is absent / file / (empty) directory, optionally with a sibling directory d-z (whose path sorts before d/ although its name sorts after d); " +
+			"per stack: ReadFile+Stat on 10 paths, ReadDir on 5 directories, 6 glob patterns, one WalkDir; compared with a reference union model. " +
 			"non-trivial = stack with at least two non-nil layers; distinct = distinct layer-index vectors",
 		Bounds: map[string]string{
-			"quick":    "all stacks of <=2 layers over 36 layer configs + nil; 3-layer stacks over a 12-config subset + nil",
-			"thorough": "all stacks of <=3 layers over 36 layer configs + nil; 4-layer stacks over the 12-config subset + nil",
+			"quick":    "all stacks of <=2 layers over 48 layer configs + nil; 3-layer stacks over a 12-config subset + nil",
+			"thorough": "all stacks of <=3 layers over 48 layer configs + nil; 4-layer stacks over the 12-config subset + nil",
 		},
 		Assumptions: []string{"testing/fstest.MapFS is a correct fs.FS", "access below a name that is a file in an upper layer and a directory in a lower one is unconstrained"},
 		Decode:      core.DecodeAs[c18Case](),
